@@ -8,9 +8,11 @@ import (
 	"encoding/base64"
 	"encoding/binary"
 	"fmt"
+	"os"
 	"runtime"
 	"runtime/debug"
 	"sort"
+	"strings"
 	"sync"
 	"sync/atomic"
 	"syscall"
@@ -77,6 +79,8 @@ type sigCase struct {
 	KeyOwner    []byte   // how the program spells the owner of the KEY handed to Verify (same name as Signer: raw octets, \c, \DDD); empty = Signer
 	SignerSpell []byte   // how the program spells SIG.SignerName for Sign (same name as SignerAs); empty = SignerAs
 	OwnerAlts   [][]byte // owners of KEYs holding the right key material that are (nearly but) not the signer's name: must be refused
+	// round 9
+	Light bool // sub-check sign-verify: everything up to and including the key / owner clause, without the enumerated alterations (many more messages per second)
 }
 
 func privFor(c sigCase) (crypto.PrivateKey, error) {
@@ -169,6 +173,11 @@ func libAccepts(orig *dns.SIG, k *dns.KEY, buf []byte, redecode bool) bool {
 	if !ok {
 		return false
 	}
+	if *s == *orig {
+		// the alteration lies outside the SIG record: the decoded SIG is field for field the one that
+		// was just tried on these octets (an expensive second signature check of the same call)
+		return false
+	}
 	return s.Verify(k, buf) == nil
 }
 
@@ -176,8 +185,8 @@ func libAccepts(orig *dns.SIG, k *dns.KEY, buf []byte, redecode bool) bool {
 // outcome does not depend on scheduling.
 func parallelEach(n int, f func(i int) bool) []bool {
 	out := make([]bool, n)
-	workers := min(4, runtime.GOMAXPROCS(0))
-	if n < 64 || workers < 2 {
+	workers := min(8, runtime.GOMAXPROCS(0))
+	if n < 24 || workers < 2 {
 		for i := 0; i < n; i++ {
 			out[i] = f(i)
 		}
@@ -296,6 +305,7 @@ func checkSig0(c sigCase) (err error) {
 	if hasRaw8(keyOwner) {
 		classes = append(classes, "key-owner-with-raw-8bit-octets")
 	}
+	classes = append(classes, nameClasses(c.Msg)...)
 	defer func() {
 		key := append([]byte(fmt.Sprintf("%d|%s|%d|%d|", c.Alg, c.SignerAs, c.IncOff, c.ExpOff)), packed...)
 		pbt.Note(key, nontrivial, classes...)
@@ -394,6 +404,7 @@ func checkSig0(c sigCase) (err error) {
 	}
 	if !c.RefSign {
 		// a signer that fails: Sign must say so - whatever Sign reports as signed has to verify
+		snap := append([]byte(nil), out...)
 		fs := &dns.SIG{}
 		fs.KeyTag, fs.SignerName, fs.Algorithm = tag, signerText, c.Alg
 		fs.Inception, fs.Expiration = incep, expir
@@ -401,6 +412,11 @@ func checkSig0(c sigCase) (err error) {
 			if v := ref.Sig0Verify(fout, signerL, c.Alg, pub, now); !v.OK && inWindow {
 				return pbt.Errf("SIG.Sign reported success although the crypto.Signer returned an error; its output (%d octets) does not verify: %s", len(fout), v.Why)
 			}
+		}
+		// round 9: what Sign returned is the signed message - it stays that when Sign is called again
+		// (with another SIG value, another Msg value): the sub-check sign-sequence has the general class
+		if !bytes.Equal(out, snap) {
+			return pbt.Errf("the octets SIG.Sign returned for the message (%d octets) changed when Sign was called once more, with another SIG value and another Msg value (first difference at octet %d): an earlier result is no longer the packed message followed by its SIG record", len(out), firstDiff(out, snap))
 		}
 	}
 	// decode with the library, as a receiver would
@@ -433,7 +449,7 @@ func checkSig0(c sigCase) (err error) {
 	}
 	verr := rsig.Verify(k, out)
 	if inWindow && verr != nil {
-		return pbt.Errf("SIG.Verify of the signed message failed: %v (alg %d, key tag %d, signer %q, KEY owner written %q, %d octets, %d additional records before the SIG, compressed=%v, reference-signed=%v)", verr, c.Alg, tag, c.SignerAs, keyOwner, len(out), len(c.Msg.Extra), c.Msg.Compress, c.RefSign)
+		return pbt.Errf("SIG.Verify of the signed message failed: %v (alg %d, key tag %d, signer %q, KEY owner written %q, %d octets, question names %q, %d additional records before the SIG, compressed=%v, reference-signed=%v)", verr, c.Alg, tag, c.SignerAs, keyOwner, len(out), questionNames(c.Msg), len(c.Msg.Extra), c.Msg.Compress, c.RefSign)
 	}
 	if !inWindow && verr == nil {
 		return pbt.Errf("SIG.Verify accepted a signature whose window [now%+d, now%+d] does not contain now", c.IncOff, c.ExpOff)
@@ -598,10 +614,19 @@ func checkSig0(c sigCase) (err error) {
 		classes = append(classes, "key-algorithm-mismatch-tried")
 	}
 
+	if c.Light {
+		classes = append(classes, "light(no enumerated alterations)")
+		return nil
+	}
 	_, last, _, _ := ref.StripLast(out)
 	// bit flips
 	var bits []int
-	full := len(out) <= fullLimit()
+	// P-384 has no assembly in crypto/elliptic: one verification costs as much as twenty of the others,
+	// and a seventh of the cases spent two thirds of the quick tier's time on it. In the quick tier its
+	// cases are enumerated like long messages (every bit of the header and of the SIG record up to
+	// the signature field, sampled bits of the body and of the signature); thorough: as all others
+	slowAlg := c.Alg == ref.AlgECDSAP384 && !pbt.Thorough()
+	full := len(out) <= fullLimit() && !slowAlg
 	if full {
 		for b := 0; b < len(out)*8; b++ {
 			bits = append(bits, b)
@@ -619,7 +644,7 @@ func checkSig0(c sigCase) (err error) {
 			addBit(b)
 		}
 		sigBits := len(out) * 8
-		if len(out) > 16384 || len(out)-last.RData > 400 {
+		if len(out) > 16384 || len(out)-last.RData > 400 || slowAlg {
 			// very long messages (every flip costs a hash over all of it) and very long signatures
 			// (RSA keys of 3072 / 4096 bits): every bit of the SIG record up to the signature field,
 			// and sampled bits of the signature itself
@@ -716,7 +741,10 @@ func checkSig0(c sigCase) (err error) {
 	// RDLENGTH is not among the signed octets, so acceptance is judged by reference consensus
 	trueLen := len(out) - last.RData
 	lens := map[int]bool{}
-	for v := 0; v <= 18+len(signerAsL.Wire())+4; v++ {
+	for v, band := 0, 18+len(signerAsL.Wire()); v <= band+4; v++ {
+		if slowAlg && v > 22 && v < band-2 && v%5 != 0 {
+			continue // every accepted value costs a whole verification: P-384 in the quick tier takes every fifth inside the band
+		}
 		lens[v] = true
 	}
 	for _, v := range []int{trueLen - 2, trueLen - 1, trueLen + 1, trueLen + 2, trueLen / 2, 255, 256, 32767, 32768, 65535} {
@@ -732,10 +760,13 @@ func checkSig0(c sigCase) (err error) {
 		}
 	}
 	sort.Ints(lenList)
-	for _, v := range lenList {
+	lacc := parallelEach(len(lenList), func(i int) bool {
 		x := append([]byte(nil), out...)
-		binary.BigEndian.PutUint16(x[last.Fixed+8:], uint16(v))
-		if libAccepts(rsig, k, x, len(x) <= 512) {
+		binary.BigEndian.PutUint16(x[last.Fixed+8:], uint16(lenList[i]))
+		return libAccepts(rsig, k, x, len(x) <= 512)
+	})
+	for _, a := range lacc {
+		if a {
 			// nothing that is signed changed: the consensus verdict (reference with TYPE / RDLENGTH of
 			// the final record normalised) is the one of the untampered message, i.e. valid
 			pbt.Class("rdlength-value-accepted(not asserted)")
@@ -1021,6 +1052,19 @@ func sizeToLimit(t *rapid.T, c *sigCase, target int) {
 	}
 }
 
+// genSig0Light (round 9, sub-check sign-verify): the same generator, the oracle stops before the
+// enumerated alterations - "whatever the message's content, size or compression setting" is a
+// statement about many messages, and a case without its thousands of flips costs a hundredth. This is
+// also the sub-check the coverage-guided layer (FuzzGen) works on.
+func genSig0Light(t *rapid.T) sigCase {
+	c := genSig0(t)
+	c.Light, c.Concurrent, c.ShortS = true, false, false
+	if c.KeySlot >= ref.RSAEdgeBase {
+		c.KeySlot = (c.KeySlot - ref.RSAEdgeBase) % ref.RSAPoolSize() // 4096-bit keys sign slowly
+	}
+	return c
+}
+
 // genSig0AtLimit draws only cases whose signed length is at the 65535-octet limit or just beyond.
 func genSig0AtLimit(t *rapid.T) sigCase {
 	c := genSig0(t)
@@ -1034,8 +1078,15 @@ func genSig0AtLimit(t *rapid.T) sigCase {
 
 func genSig0(t *rapid.T) sigCase {
 	c := sigCase{}
-	c.Msg = msgspec.Gen(t, msgspec.Opts{ManyExtra: true, Big: true, Huge: true})
+	c.Msg = msgspec.Gen(t, msgspec.Opts{ManyExtra: true, Big: true, Huge: true, ShrinkSmall: true})
+	if rapid.IntRange(0, 2).Draw(t, "plantstruct") == 0 {
+		plantInName(t, &c.Msg)
+	}
 	c.Alg = rapid.SampledFrom(sigAlgs).Draw(t, "alg")
+	if c.Alg == ref.AlgECDSAP384 && !pbt.Thorough() && rapid.Bool().Draw(t, "p384again") {
+		// quick tier: half of the P-384 cases are drawn again (a P-384 case costs five average ones)
+		c.Alg = rapid.SampledFrom(sigAlgs).Draw(t, "alg2")
+	}
 	c.KeySlot = rapid.IntRange(0, ref.RSAPoolSize()-1).Draw(t, "slot")
 	c.KeySeed = rapid.SliceOfN(rapid.Byte(), 1, 40).Draw(t, "seed")
 	sno := gen.NameOpts{MaxLabs: 4, MaxLabel: 10, Plain: rapid.IntRange(0, 3).Draw(t, "plainsigner") > 0}
@@ -1099,11 +1150,99 @@ func genSig0(t *rapid.T) sigCase {
 		c.Muts = append(c.Muts, Mut{Op: rapid.SampledFrom([]string{"set", "set", "ins", "del", "count", "ptr"}).Draw(t, "op"),
 			Pos: rapid.IntRange(0, 1<<20).Draw(t, "mpos"), Val: rapid.SliceOfN(rapid.Byte(), 1, 4).Draw(t, "mval")})
 	}
-	if rapid.IntRange(0, 11).Draw(t, "atmax") == 0 {
+	if rapid.IntRange(0, 11).Draw(t, "atmax") == 11 { // not 0: rapid shrinks draws towards 0, and a case of 65535 octets is the most expensive one to shrink on
 		sizeToLimit(t, &c, rapid.SampledFrom([]int{65535, 65535, 65534, 65536, 65536, 65537}).Draw(t, "target"))
 	}
 	excludeKnown(&c)
 	return c
+}
+
+// structOctets are label contents that mean something in the wire form of a name when they are read
+// at the wrong place: the root label / end of name (0), a compression pointer (0xC0 0x0C points at
+// the question name), the reserved label types (0x40, 0x80), the longest label (0x3F), 0xFF, 1.
+var structOctets = [][]byte{{0}, {0}, {0}, {0}, {0}, {0xC0, 0x0C}, {0xC0, 0x0C}, {0xC0}, {0xFF}, {0x3F}, {0x40}, {0x80}, {1}}
+
+// plantInName (round 9) writes such an octet into a label of one name of the pool - three times out
+// of four the name of the first question, the first name of the message and the only one that code
+// skipping the sections by hand may be tempted to scan instead of decoding. "Whatever the message's
+// content": a label holds any octets, \000 included.
+func plantInName(t *rapid.T, s *msgspec.Spec) {
+	if len(s.Names) == 0 {
+		return
+	}
+	idx := rapid.IntRange(0, len(s.Names)-1).Draw(t, "plantidx")
+	if len(s.Question) > 0 && rapid.IntRange(0, 3).Draw(t, "plantq") > 0 {
+		idx = s.NameIndex(s.Question[0].Name)
+	}
+	n, _, err := wm.UnescName(s.Names[idx])
+	if err != nil {
+		return
+	}
+	n = n.Clone()
+	v := rapid.SampledFrom(structOctets).Draw(t, "plantv")
+	if len(n) == 0 {
+		n = wm.Name{append([]byte(nil), v...)}
+	} else {
+		l := n[rapid.IntRange(0, len(n)-1).Draw(t, "plantl")]
+		o := rapid.IntRange(0, len(l)-1).Draw(t, "planto")
+		for i, b := range v {
+			if o+i < len(l) {
+				l[o+i] = b
+			}
+		}
+	}
+	if n.Valid() {
+		s.Names[idx] = wm.EscName(n)
+	}
+}
+
+func questionNames(s msgspec.Spec) []string {
+	var o []string
+	for _, q := range s.Question {
+		if i := s.NameIndex(q.Name); i >= 0 {
+			o = append(o, s.Names[i])
+		} else {
+			o = append(o, ".")
+		}
+	}
+	return o
+}
+
+// nameClasses: which of those contents the names of the message have (for the evidence histogram).
+func nameClasses(s msgspec.Spec) []string {
+	has := func(text string, f func(b byte) bool) bool {
+		n, _, err := wm.UnescName(text)
+		if err != nil {
+			return false
+		}
+		for _, l := range n {
+			for _, b := range l {
+				if f(b) {
+					return true
+				}
+			}
+		}
+		return false
+	}
+	zero := func(b byte) bool { return b == 0 }
+	high := func(b byte) bool { return b >= 0xC0 }
+	var out []string
+	if len(s.Question) > 0 && len(s.Names) > 0 {
+		q := s.Names[s.NameIndex(s.Question[0].Name)]
+		if has(q, zero) {
+			out = append(out, "question-name-with-octet-0-inside-a-label", fmt.Sprintf("question-name-with-octet-0-inside-a-label/questions=%d", len(s.Question)))
+		}
+		if has(q, high) {
+			out = append(out, "question-name-with-octet>=0xC0-inside-a-label")
+		}
+	}
+	for _, nm := range s.Names {
+		if has(nm, zero) {
+			out = append(out, "message-with-a-name-holding-octet-0")
+			break
+		}
+	}
+	return out
 }
 
 // spellRaw writes a fully qualified name with generated spelling choices per octet: raw (also for
@@ -1248,6 +1387,7 @@ func excludeKnown(c *sigCase) {
 func init() {
 	pbt.Register(pbt.Sub[sigCase]{Name: "sign-verify-tamper", Weight: 1, Gen: genSig0, Check: checkSig0})
 	pbt.Register(pbt.Sub[sigCase]{Name: "sizes-at-the-limit", Weight: 0.05, Gen: genSig0AtLimit, Check: checkSig0})
+	pbt.Register(pbt.Sub[sigCase]{Name: "sign-verify", Weight: 5, Gen: genSig0Light, Check: checkSig0})
 
 	plain := func(compress bool, extras int) msgspec.Spec {
 		s := msgspec.Spec{ID: 0x1234, RD: true, Names: []string{"www.example.org.", "example.org.", "ns.example.org."}, Compress: compress,
@@ -1260,6 +1400,14 @@ func init() {
 		return s
 	}
 	base := sigCase{Alg: ref.AlgEd25519, KeySeed: []byte{1}, Signer: "key.example.org.", SignerAs: "key.example.org.", IncOff: -3600, ExpOff: 3600}
+	// Under `go test -fuzz` every one of the 16 worker processes runs the probes at start-up, with coverage
+	// instrumentation in the crypto packages: with their thousands of enumerated alterations that took the first
+	// 20 s of a 30 s budget. There the probes stop where the sub-checks that FuzzGen drives stop (Light).
+	for _, a := range os.Args {
+		if strings.HasPrefix(a, "-test.fuzz=") || strings.HasPrefix(a, "-test.fuzzworker") {
+			base.Light = true
+		}
+	}
 	pbt.Probe(findCompress, func() error {
 		c := base
 		c.Msg = plain(true, 1)
